@@ -234,6 +234,13 @@ func nonNegative(v *Val, conds []Cond) bool {
 			}
 			return any
 		}
+	case "choice":
+		for _, a := range v.Args {
+			if !nonNegative(a, conds) {
+				return false
+			}
+		}
+		return len(v.Args) > 0
 	case "loopvar":
 		return len(v.Args) == 1 && nonNegative(v.Args[0], conds)
 	case "binop":
@@ -634,7 +641,7 @@ func (s *safety) checkNoPanic(rep *Report, prefix string, key string, fn *ssa.Fu
 				// only the registry's read lock is expected on codec paths
 				rep.Ob(prefix+"4-locks", key+":"+e.Mode, e.Mode == "RLock" || e.Mode == "RUnlock", epos, "codec path takes "+e.Mode+" on "+e.Recv.Pretty())
 			case EvRep:
-				bounded := e.Bounded == "counted" || e.Bounded == "range" || e.Bounded == "counted-down"
+				bounded := e.Bounded == "counted" || e.Bounded == "range" || e.Bounded == "counted-down" || e.Bounded == "bulk"
 				if decode {
 					// the trip count must be bounded by the input size: either the count does not derive from
 					// wire data at all (a constant or parameter), or each completed iteration consumes at least one byte
